@@ -1,6 +1,6 @@
 CONSTANT W = 64
-CONSTANT EXT = 0
-CONSTANT L = 7
+CONSTANT EXT = 1
+CONSTANT L = 5
 INIT Init
 NEXT Next
 INVARIANT ExecFunctional
